@@ -71,12 +71,51 @@ pub fn main(o: &Opts) -> i32 {
                         }
                     }
                 }
+                // grouped aggregation: one row per distinct key, with its multiplicity (also across the 2048-row output chunk boundary)
+                if !pat.contains("n1") {
+                    for key in ["n0.u", "n0.k"] {
+                        if big && key == "n0.k" && rng.random_bool(0.5) { continue; }
+                        let (Some(gr), Some(full)) = (rows(g, lang, &format!("MATCH {pat} RETURN {key}, count(n0)")), rows(g, lang, &format!("MATCH {pat} RETURN {key}"))) else { continue };
+                        emit(&mut out, json!({"kind": "groups", "g": gr, "full": full, "lang": lang}), format!("MATCH {pat} RETURN {key}, count(n0)"));
+                    }
+                }
                 // union all
                 if !big {
                     let (q1, q2) = (format!("MATCH {pat} WHERE n0.k > 1 RETURN id(n0)"), format!("MATCH {pat} WHERE n0.k < 3 RETURN id(n0)"));
                     if let (Some(a), Some(b), Some(u)) = (rows(g, lang, &q1), rows(g, lang, &q2), rows(g, lang, &format!("{q1} UNION ALL {q2}"))) {
                         emit(&mut out, json!({"kind": "union", "a": a, "b": b, "u": u, "lang": lang}), format!("{q1} UNION ALL {q2}"));
                     }
+                }
+            }
+        }
+    }
+    // C09 (agree): constructs outside QuerySem's grammar must at least be answered identically under every optimizer configuration
+    if o.flag("agree") {
+        let fams = [
+            "MATCH (a) OPTIONAL MATCH (a)-[e]->(b) RETURN id(a), id(b)",
+            "MATCH (a) OPTIONAL MATCH (a)-[e]->(b) WHERE b.k IS NULL RETURN id(a), id(b)",
+            "MATCH (a) OPTIONAL MATCH (a)-[e]->(b) WHERE b.k > 1 RETURN id(a), id(b)",
+            "MATCH (a) OPTIONAL MATCH (a)-[e]->(b) WHERE b IS NULL RETURN id(a)",
+            "MATCH (a:A) OPTIONAL MATCH (a)-[e:T]->(b) WHERE coalesce(b.k, 0) < 2 RETURN id(a), id(b)",
+            "MATCH (a) OPTIONAL MATCH (a)<-[e]-(b:B) WHERE a.k > 0 RETURN id(a), id(b)",
+            "MATCH (a) WITH a WHERE a.k > 1 RETURN id(a)",
+            "MATCH (a)-[e]->(b) WITH a, b WHERE a.k <= b.k RETURN id(a), id(b)",
+            "MATCH (a), (b) WHERE a.k = b.k AND id(a) < id(b) RETURN id(a), id(b)",
+            "MATCH (a)-[e]->(b), (b)-[f]->(c) WHERE a.k > 0 RETURN id(a), id(c)",
+            "MATCH (a)-[e]->(b) WHERE a.k > 1 AND b.s = 'a' RETURN a.s, count(b)",
+            "UNWIND [1, 2, 3] AS x MATCH (a) WHERE a.k = x RETURN x, id(a)",
+        ];
+        for g in graphs.iter().filter(|g| g.nnodes <= 100) {
+            for lang in ["gql", "cypher"] {
+                for f in fams.iter() {
+                    let mut variants = vec![];
+                    for cfg in [None, Some((false, false, false)), Some((true, false, false)), Some((false, true, false)), Some((false, false, true)), Some((true, true, true))] {
+                        match crate::q::exec_pipeline(&g.db, lang, f, cfg, true) {
+                            Ok(rs) => variants.push(json!(rs.iter().map(|row| row.iter().map(tagged).collect::<Vec<_>>()).collect::<Vec<_>>())),
+                            Err(_) => {}
+                        }
+                    }
+                    if variants.len() == 6 { emit(&mut out, json!({"kind": "agree", "variants": variants, "lang": lang}), f.to_string()); }
                 }
             }
         }
